@@ -21,42 +21,50 @@ open CopVerif CopVerif.Model.VineFlow
 
 /-! ## the 0/1 correction -/
 
-/-- `prepare_next_tree`'s correction maps a conditional CDF value in `[0,1]` strictly inside
-`(0,1)`: `0 ↦ ε`, `1 ↦ 1 − ε`, everything else unchanged (so the stored value is `≥ min h ε` and
-`≤ max h (1 − ε)`). -/
-theorem fix01_range {ε h : ℝ} (hε : 0 < ε) (hε2 : ε < 1 / 2) (h0 : 0 ≤ h) (h1 : h ≤ 1) :
-    0 < fix01 ε h ∧ fix01 ε h < 1 ∧ (h = 0 → fix01 ε h = ε) ∧ (h = 1 → fix01 ε h = 1 - ε) ∧
-      (0 < h → h < 1 → fix01 ε h = h) ∧ min h ε ≤ fix01 ε h ∧ fix01 ε h ≤ max h (1 - ε) := by
-  have hne : ε ≠ 1 := by linarith
-  have v0 : fix01 ε (0 : ℝ) = ε := by simp [fix01, hne]
-  have v1 : fix01 ε (1 : ℝ) = 1 - ε := by simp [fix01]
-  have vm : h ≠ 0 → h ≠ 1 → fix01 ε h = h := by
-    intro a b; simp [fix01, a, b]
-  by_cases e0 : h = 0
-  · subst e0
-    rw [v0]
-    refine ⟨hε, by linarith, fun _ => rfl, fun h => by norm_num at h,
-      fun h => absurd h (lt_irrefl 0), min_le_right _ _, ?_⟩
-    exact le_trans (by linarith) (le_max_right _ _)
-  · by_cases e1 : h = 1
-    · subst e1
-      rw [v1]
-      refine ⟨by linarith, by linarith, fun h => by norm_num at h, fun _ => rfl,
-        fun _ h => absurd h (lt_irrefl 1), ?_, le_max_right _ _⟩
-      exact le_trans (min_le_right _ _) (by linarith)
-    · rw [vm e0 e1]
-      have hpos : 0 < h := lt_of_le_of_ne h0 (Ne.symm e0)
-      have hlt : h < 1 := lt_of_le_of_ne h1 e1
-      exact ⟨hpos, hlt, fun h => absurd h e0, fun h => absurd h e1, fun _ _ => rfl,
-        min_le_left _ _, le_max_left _ _⟩
+/-- `prepare_next_tree`'s correction (`≤ 0 ↦ ε`, `≥ 1 ↦ 1 − ε`) maps EVERY real number strictly
+inside `(0,1)` — no hypothesis on the conditional-CDF routine is needed — and leaves values already
+inside unchanged. -/
+theorem fix01_range {ε : ℝ} (hε : 0 < ε) (hε2 : ε < 1 / 2) (h : ℝ) :
+    0 < fix01 ε h ∧ fix01 ε h < 1 ∧ (h ≤ 0 → fix01 ε h = ε) ∧ (1 ≤ h → fix01 ε h = 1 - ε) ∧
+      (0 < h → h < 1 → fix01 ε h = h) ∧ ε ≤ max h ε ∧ min h ε ≤ fix01 ε h ∧
+      fix01 ε h ≤ max h (1 - ε) := by
+  have hε1 : ¬ (1 ≤ ε) := by linarith
+  have v0 : h ≤ 0 → fix01 ε h = ε := by
+    intro a; simp [fix01, a, hε1]
+  have v1 : 1 ≤ h → fix01 ε h = 1 - ε := by
+    intro a
+    have : ¬ h ≤ 0 := by linarith
+    simp [fix01, a, this]
+  have vm : 0 < h → h < 1 → fix01 ε h = h := by
+    intro a b
+    have h1 : ¬ h ≤ 0 := by linarith
+    have h2 : ¬ 1 ≤ h := by linarith
+    simp [fix01, h1, h2]
+  refine ⟨?_, ?_, v0, v1, vm, le_max_right _ _, ?_, ?_⟩ <;>
+  · rcases le_or_gt h 0 with a | a
+    · rw [v0 a]
+      first | linarith | exact min_le_right _ _ | exact le_trans (by linarith) (le_max_right _ _)
+    · rcases le_or_gt 1 h with b | b
+      · rw [v1 b]
+        first | linarith | exact le_trans (min_le_right _ _) (by linarith) | exact le_max_right _ _
+      · rw [vm a b]
+        first | linarith | exact min_le_left _ _ | exact le_max_left _ _
 
-/-- both stored rows of `edge.U`. -/
-theorem edgeU_range {ε : ℝ} (H : ℝ → ℝ → ℝ) (hε : 0 < ε) (hε2 : ε < 1 / 2)
-    (hH : ∀ a b, 0 ≤ H a b ∧ H a b ≤ 1) (l r : ℝ) :
+/-- both stored rows of `edge.U`, for an arbitrary `partial_derivative`. -/
+theorem edgeU_range {ε : ℝ} (H : ℝ → ℝ → ℝ) (hε : 0 < ε) (hε2 : ε < 1 / 2) (l r : ℝ) :
     0 < (edgeU ε H l r).1 ∧ (edgeU ε H l r).1 < 1 ∧ 0 < (edgeU ε H l r).2 ∧ (edgeU ε H l r).2 < 1 := by
-  obtain ⟨a1, a2, _⟩ := fix01_range hε hε2 (hH l r).1 (hH l r).2
-  obtain ⟨b1, b2, _⟩ := fix01_range hε hε2 (hH r l).1 (hH r l).2
+  obtain ⟨a1, a2, _⟩ := fix01_range hε hε2 (H l r)
+  obtain ⟨b1, b2, _⟩ := fix01_range hε hε2 (H r l)
   exact ⟨a1, a2, b1, b2⟩
+
+/-- regression (repaired in /repo 2e73dc6; the code compared with `== 1`): a conditional-CDF value
+rounded slightly above 1 — Clayton θ = 21.8 returns `1.0000000000000044` at
+`(0.4593…, 0.0559…)` — is stored as `1 − ε`, and one slightly below 0 as `ε`. -/
+theorem fix01_above_one_regression {ε : ℝ} (hε : 0 < ε) (hε2 : ε < 1 / 2) :
+    fix01 ε (1 + 44 / 10 ^ 16) = 1 - ε ∧ fix01 ε (-(1 / 10 ^ 16)) = ε := by
+  constructor
+  · exact (fix01_range hε hε2 _).2.2.2.1 (by norm_num)
+  · exact (fix01_range hε hε2 _).2.2.1 (by norm_num)
 
 example : (0 : ℝ) < 2⁻¹ ^ 23 ∧ (2⁻¹ ^ 23 : ℝ) < 1 / 2 := by norm_num
 
